@@ -170,12 +170,20 @@ RECURSIVE HasKind(_, _)
 HasKind(kids, kind) == \E j \in 1..Len(kids) : kids[j][1] = kind \/ (kids[j][1] \in {"quote", "ul", "ol", "li"} /\ HasKind(kids[j][3], kind))
 
 \* ------------------------------------------------------------------ generator machine
+\* C20 (second clause): the supported construct set fixed in DESIGN.md section C20 - no tabs, LF only, no <...> destinations
+\* (snippet 7), and inside a quote or list item no emphasis / link / code span / raw tag that contains a line ending
+\* (snippets 15, 16, 17, 20: the formatter copies their source verbatim and re-indents it).
+FmtMode == LeafSet \in {"fstructure", "finline", "fcode"}
+FmtInl == (1..NInl) \ {7}
+MultiLineVerbatim(i) == i \in {15, 16, 17, 20}
 Leaves ==
-  CASE LeafSet = "structure" -> {<<"para", 1, <<>>>>, <<"para", 2, <<>>>>, <<"atx", <<2, 1>>, <<>>>>, <<"setext", <<1, 2>>, <<>>>>, <<"hr", 0, <<>>>>,
+  CASE LeafSet \in {"structure", "fstructure"} -> {<<"para", 1, <<>>>>, <<"para", 2, <<>>>>, <<"atx", <<2, 1>>, <<>>>>, <<"setext", <<1, 2>>, <<>>>>, <<"hr", 0, <<>>>>,
                                  <<"fence", <<TRUE, 2>>, <<>>>>, <<"icode", 1, <<>>>>, <<"html", 1, <<>>>>}
     [] LeafSet = "inline" -> {<<"para", i, <<>>>> : i \in 1..NInl} \cup {<<"atx", <<3, i>>, <<>>>> : i \in {j \in 1..NInl : SingleLine(j)}}
                              \cup {<<"setext", <<2, i>>, <<>>>> : i \in {2, 6, 14, 15, 16, 20}}
-    [] LeafSet = "code" -> {<<"fence", <<b, c>>, <<>>>> : b \in BOOLEAN, c \in 1..3} \cup {<<"icode", c, <<>>>> : c \in 1..3}
+    [] LeafSet = "finline" -> {<<"para", i, <<>>>> : i \in FmtInl} \cup {<<"atx", <<3, i>>, <<>>>> : i \in {j \in FmtInl : SingleLine(j)}}
+                              \cup {<<"setext", <<2, i>>, <<>>>> : i \in {2, 6, 14, 15, 16, 20}}
+    [] LeafSet \in {"code", "fcode"} -> {<<"fence", <<b, c>>, <<>>>> : b \in BOOLEAN, c \in 1..3} \cup {<<"icode", c, <<>>>> : c \in 1..3}
                            \cup {<<"html", h, <<>>>> : h \in 1..3} \cup {<<"para", 1, <<>>>>, <<"hr", 0, <<>>>>}
 Containers == {<<"quote", FALSE>>, <<"ul", TRUE>>, <<"ul", FALSE>>, <<"ol", TRUE>>, <<"ol", FALSE>>}
 
@@ -192,6 +200,8 @@ CanAddLeaf(l) ==
   /\ (l[1] = "icode" /\ Top.kind = "li" => Top.kids # <<>>)             \* indented code is not the first block of an item
   /\ (l[1] = "icode" /\ Top.kids # <<>> => Top.kids[Len(Top.kids)][1] \notin {"icode", "ul", "ol"})   \* would merge with the previous code block / continue the previous list item
   /\ (l[1] = "html" /\ l[2] = 3 => ~InList /\ Top.kind = "doc")         \* <pre> with indented content only at the root
+  /\ (FmtMode /\ Len(stack) > 1 /\ l[1] = "para" => ~MultiLineVerbatim(l[2]))
+  /\ (FmtMode /\ Len(stack) > 1 /\ l[1] \in {"atx", "setext"} => ~MultiLineVerbatim(l[2][2]))
 AddLeaf == /\ n < MaxNodes
            /\ \E l \in Leaves : CanAddLeaf(l) /\ stack' = [stack EXCEPT ![Len(stack)].kids = Append(@, l)]
            /\ n' = n + 1 /\ UNCHANGED ch
@@ -222,6 +232,7 @@ Complete == Len(stack) = 1 /\ stack[1].kids # <<>>
 ChoiceOK == /\ (ch.eol # "\n" => ch.final)
             /\ (ch.tab => ch.lead = 0)
             /\ (~ch.final => ~HasKind(stack[1].kids, "html"))    \* an HTML block at end of input has no last line ending to copy
+            /\ (FmtMode => ch.eol = "\n" /\ ~ch.tab)
 Emit == (Complete /\ ChoiceOK) => PrintT(ToJson([md |-> Markdown(stack[1].kids, ch), html |-> Denote(stack[1].kids, ch), ch |-> ch]))
 
 \* model-level sanity: the denotation has one entry per root block (plus the empty rendering of the definition)
